@@ -98,7 +98,7 @@ theorem longOpt_parseLong (specs : List OptionSpec) (mode : Mode) (body : Str) (
   | [] => rfl
   | s1 :: s2 :: t => rfl
   | [s] =>
-    simp only []
+    simp only [Spec.longOne]
     by_cases hx : ¬ mode.longOptionNames = true ∨ (s.extension = true ∧ ¬ mode.extensionOptions = true)
     · have hb : (!(mode.longOptionNames && (mode.extensionOptions || !s.extension))) = true := by
         cases h1 : mode.longOptionNames <;> cases h2 : mode.extensionOptions <;> cases h3 : s.extension <;> simp_all
@@ -297,13 +297,7 @@ def longSpecResult (mode : Mode) (cands : List OptionSpec) (t : Str) :
     Except ParseError (List Spec.Opt × Option OptionSpec) :=
   match cands with
   | [] => .error .unknownLong
-  | [s] =>
-    if ¬ mode.longOptionNames ∨ (s.extension ∧ ¬ mode.extensionOptions) then .error (.nonPortableLong s)
-    else match s.takesArg, !t.isEmpty with
-      | false, false => .ok ([(s, none)], none)
-      | false, true => .error (.unexpectedArgument s)
-      | true, false => .ok ([], some s)
-      | true, true => .ok ([(s, some (t.drop 1))], none)
+  | [s] => Spec.longOne mode s (!t.isEmpty) (t.drop 1)
   | ss => .error (.ambiguousLong ss)
 
 theorem longOpt_split (specs : List OptionSpec) (mode : Mode) (n t : Str) (hn : '=' ∉ n)
@@ -329,7 +323,7 @@ theorem spec_long_eq_arg (specs : List OptionSpec) (mode : Mode) (l x : Str) (r 
     | _ :: _ :: _ => rfl
     | [s] =>
       have hs := ha s hc
-      simp only [longSpecResult, hs]
+      simp only [longSpecResult, Spec.longOne, hs]
       by_cases hx : ¬ mode.longOptionNames = true ∨ (s.extension = true ∧ ¬ mode.extensionOptions = true)
       · rw [if_pos hx, if_pos hx]; rfl
       · rw [if_neg hx, if_neg hx]
